@@ -21,6 +21,7 @@ import (
 // (free count == capacity for every class, and GetMetrics().AllInUsedShareMemoryInBytes == 0).
 
 type c09Opts struct {
+	stallPeer bool // the server's event loop does not run during the workload (a peer that stopped consuming)
 	name      string
 	freeSmall int
 	queueCap  uint32
@@ -48,6 +49,9 @@ func c09Body(o c09Opts) func() {
 			po.ListenCB = lcb
 		}
 		p := newEPair(po)
+		if o.stallPeer {
+			p.router.paused[2] = true
+		}
 		n := o.nstreams
 		if n == 0 {
 			n = 1
@@ -78,6 +82,7 @@ func c09Body(o c09Opts) func() {
 			}
 		}
 		vrt.WaitThreads(ths...)
+		p.router.paused[2] = false
 		vrt.WaitIdle(vrt.Second)
 		// completion: close every stream on both ends
 		fin := vrt.GoProc("finish-client", 1, func() {
@@ -175,6 +180,14 @@ func TestVerif_C09(t *testing.T) {
 		mk(c09Opts{name: "queue-full-two-streams", queueCap: 1, nstreams: 2,
 			client: func(p *ePair, k int, st *Stream) { c09Flush(st, k+1, 0, 5); c09Flush(st, k+1, 5, 20) },
 			server: func(p *ePair, st *Stream) { st.BufferReader().ReadBytes(5) }}, 1, 2),
+		mk(c09Opts{name: "queue-full-gives-up", queueCap: 1, stallPeer: true,
+			client: func(p *ePair, k int, st *Stream) {
+				c09Flush(st, 1, 0, 5)
+				if err := c09Flush(st, 1, 5, 40); err != ErrQueueFull { // 10 retries against a consumer that never drains
+					vrt.Failf("harness", "second flush into the stalled 1-element queue returned %v", err)
+				}
+				vrt.Count("gave_up_queue_full")
+			}}, 1, 2),
 		mk(c09Opts{name: "reuse-read-buffer-respond",
 			client: func(p *ePair, k int, st *Stream) {
 				c09Flush(st, 1, 0, 10)
